@@ -859,6 +859,21 @@ func (e *Env) call(v *ast.CallExpr, want *Sort) T {
 		return t
 	case "locked":
 		// the value of an expression right after the function acquired its lock
+		if g.callLocked != nil {
+			// in a callee's contract applied at a call site: the state at the callee's lock
+			// acquisition is unknown to the caller -- an unconstrained value, one per expression
+			key := exprString(v.Args[0])
+			if t, ok := g.callLocked[key]; ok {
+				return t
+			}
+			t := e.compile(v.Args[0], want)
+			if len(e.errs) > 0 {
+				return t
+			}
+			t.S = g.fresh("locked", t.So)
+			g.callLocked[key] = t
+			return t
+		}
 		if g.lockSt == nil {
 			return e.fail("locked(): no lock acquired in this function before this point")
 		}
